@@ -23,6 +23,10 @@ type HEvent struct {
 	Ses     string `json:"ses"`  // "", "unset" or decimal
 	Type    string `json:"type"` // LOGIN, CRED_DISP, or the name of another record type
 	PIDText string `json:"pid_text"`
+	// what the record carries beyond that (fields.go); none of it may lead the correlator
+	Seq    uint32            `json:"seq,omitempty"`   // kernel serial (aucoalesce.Event.Sequence)
+	TSms   int64             `json:"ts_ms,omitempty"` // the record's own timestamp, unix ms (0: 1700000000 s + id)
+	Fields map[string]string `json:"fields,omitempty"`
 }
 
 type HOp struct {
@@ -47,6 +51,9 @@ type History struct {
 	Plans  map[string]SessPlan `json:"plans"`
 	Mode   string              `json:"mode"`
 	Debug  bool                `json:"debug_logging,omitempty"` // the correlator gets a logger with DEBUG enabled
+	// how the serials / timestamps of the records were generated (fields.go); informational, the values are in the events
+	Serials string `json:"serials,omitempty"`
+	Stamps  string `json:"stamps,omitempty"`
 }
 
 var otherTypes = []string{"USER_START", "USER_END", "SYSCALL", "USER_ACCT", "CRED_ACQ", "USER_CMD", "EXECVE", "USER_LOGIN", "CRED_REFR", "USER_AUTH"}
@@ -308,7 +315,14 @@ func (o HOp) String() string {
 	case "login":
 		return fmt.Sprintf("login#%d(pid %d,at %d%s)", o.Login.ID, o.Login.PID, o.Login.AtIdx, o.Login.Invalid)
 	case "audit":
-		return fmt.Sprintf("ev#%d(ses %q,%s,pid %q)", o.Event.ID, o.Event.Ses, o.Event.Type, o.Event.PIDText)
+		extra := ""
+		if o.Event.Seq != 0 {
+			extra += fmt.Sprintf(",serial %d", o.Event.Seq)
+		}
+		if v, ok := o.Event.Fields["old-ses"]; ok && v != unsetID {
+			extra += ",old-ses " + v
+		}
+		return fmt.Sprintf("ev#%d(ses %q,%s,pid %q%s)", o.Event.ID, o.Event.Ses, o.Event.Type, o.Event.PIDText, extra)
 	default:
 		return fmt.Sprintf("%s(cut %d)", o.Kind, o.Cut)
 	}
